@@ -742,3 +742,63 @@ def inline_single_defs(fn: ast.AST, expr: ast.expr, keep=(), depth: int = 4) -> 
         return T().visit(e)
 
     return sub(copy.deepcopy(expr), depth)
+
+
+def attr_alias_mutations(fi: "FunctionInfo"):
+    """[(node, local, attribute chain, how)]: a local bound by a plain copy  L = self.a.b  (or <param>.a) that is then changed
+    in place - mutator call, item store, or  L += .. / L *= ..  when L is used as a container (len(L), L[..], iteration) -
+    with no rebinding of L in between.  The stored object changes, so the next call sees another value."""
+    fn = fi.node
+    ps = set(fi.params())
+    alias, rebind = {}, {}
+    for s_ in walk_no_nested(fn):
+        if isinstance(s_, ast.Assign) and len(s_.targets) == 1 and isinstance(s_.targets[0], ast.Name):
+            t = s_.targets[0].id
+            c = attr_chain(s_.value) if isinstance(s_.value, ast.Attribute) else None
+            if c and (c.startswith("self.") or c.split(".")[0] in ps):
+                alias.setdefault(t, []).append((s_.lineno, c))
+            else:
+                rebind.setdefault(t, []).append(s_.lineno)
+    if not alias:
+        return []
+
+    def container_use(name):
+        for n in walk_no_nested(fn):
+            if isinstance(n, ast.Call) and attr_chain(n.func) == "len" and len(n.args) == 1 and isinstance(n.args[0], ast.Name) and n.args[0].id == name:
+                return True
+            if isinstance(n, ast.Subscript) and isinstance(n.value, ast.Name) and n.value.id == name:
+                return True
+            if isinstance(n, (ast.For, ast.comprehension)) and isinstance(n.iter, ast.Name) and n.iter.id == name:
+                return True
+        return False
+
+    def target_of(name, line):
+        best = None
+        for a_line, c in alias.get(name, []):
+            if a_line < line and not any(a_line < r < line for r in rebind.get(name, [])):
+                best = c
+        return best
+
+    out = []
+    for n in walk_no_nested(fn):
+        if isinstance(n, ast.Call) and isinstance(n.func, ast.Attribute) and isinstance(n.func.value, ast.Name) and n.func.attr in MUTATORS:
+            c = target_of(n.func.value.id, n.lineno)
+            if c:
+                out.append((n, n.func.value.id, c, f".{n.func.attr}()"))
+        if isinstance(n, (ast.Assign, ast.Delete)):
+            for t in n.targets:
+                if isinstance(t, ast.Subscript) and isinstance(t.value, ast.Name):
+                    c = target_of(t.value.id, n.lineno)
+                    if c:
+                        out.append((n, t.value.id, c, "item assignment"))
+        if isinstance(n, ast.AugAssign):
+            t = n.target
+            if isinstance(t, ast.Subscript) and isinstance(t.value, ast.Name):
+                c = target_of(t.value.id, n.lineno)
+                if c:
+                    out.append((n, t.value.id, c, "item assignment"))
+            if isinstance(t, ast.Name) and isinstance(n.op, (ast.Add, ast.Mult)):
+                c = target_of(t.id, n.lineno)
+                if c and container_use(t.id):
+                    out.append((n, t.id, c, f"augmented assignment ({'+=' if isinstance(n.op, ast.Add) else '*='} on a list extends it in place)"))
+    return out
